@@ -137,6 +137,17 @@ inline Mesh make_mesh(int mesh, int salt) {
 				   {{3, 0.8125f}, {4, 0.125f}, {0, 0.0625f}}};
 			m.nparts = 1;
 			break;
+		case 3: {
+			// 85 bones in one partition: LE has no bone limit per partition, SE allows 80, so a conversion has to split
+			nv = 30;
+			std::vector<uint16_t> strip;
+			for (int i = 0; i < nv; i++) strip.push_back((uint16_t) i);
+			m.strips = {strip};
+			m.nbones = 85;
+			for (int i = 0; i < nv; i++) m.w.push_back({{(3 * i) % 85, 0.5f}, {(3 * i + 1) % 85, 0.3125f}, {(3 * i + 2) % 85, 0.1875f}});
+			m.nparts = 1;
+			break;
+		}
 		default:
 			// two strips, four triangles, two interleaved partitions
 			nv = 6;
@@ -440,7 +451,7 @@ inline Built build(const Recipe& r) {
 
 	std::vector<int> boneIDs;
 	if (r.skin != SKIN_NONE) {
-		for (int b = 0; b < 5; b++) {
+		for (int b = 0; b < (r.mesh == 3 ? 85 : 5); b++) {
 			NiNode* bone = nif.AddNode(vf::strf("Bone%d", b), xform((float) b, 0.5f * (float) b, 1.0f), root);
 			if (!bone) { out.why = "bone node"; return out; }
 			boneIDs.push_back((int) nif.GetBlockID(bone));
